@@ -296,6 +296,7 @@ func first(a, _ []byte) []byte { return a }
 //@   requires typeOK(*ref) && InvRef(*ref)
 //@   ensures[absent_iff_nil] (result == nil) == (lookP(*ref, b) == nil)
 //@   ensures[slot_holds_child] implies(result != nil, (*result).pointer == lookP(*ref, b) && (*result).tag == lookT(*ref, b) && result.obj == (*ref).pointer)
+//@   ensures[child_typed] implies(result != nil, okRef(*result) && (*result).pointer != (*ref).pointer)
 //@   ensures[pure] frame()
 
 // addChild: requires the byte to be absent; ensures the whole view (all 256
@@ -509,6 +510,7 @@ func first(a, _ []byte) []byte { return a }
 //@ spec LeafOK_alpha(o) = as(alphaLeafNode, o).key.obj != nil && allocated(as(alphaLeafNode, o).key.obj) && 0 <= as(alphaLeafNode, o).key.idx && as(alphaLeafNode, o).key.idx + as(alphaLeafNode, o).len <= blen(as(alphaLeafNode, o).key.obj)
 //@ spec HeapOK_alpha() = forallref(o, implies(inT(o) && allocated(o) && o != nil, NodeOK(o) && implies(atype(o) == leafT(), LeafOK_alpha(o))))
 //@ spec WF1_alpha(t) = t != nil && allocated(t) && atype(t) == typeid(alphaSortedTree) && leafT() == typeid(alphaLeafNode) && rootOK(t.root) && HeapOK_alpha()
+//@ spec sizeSane(t) = 0 <= t.size && t.size < 4611686018427387904
 
 //@ func (*alphaLeafNode[V]).getKey
 //@   inline
@@ -542,7 +544,7 @@ func first(a, _ []byte) []byte { return a }
 //@   opt bind K=[]byte
 //@   opt casts on
 //@   opt extent on
-//@   requires WF1_alpha(t)
+//@   requires WF1_alpha(t) && sizeSane(t)
 //@   assume_at_call (*nodeRef).deleteChild : implies(isMerge(*ptr) && survT(*ptr, b) != 4, survP(*ptr, b) != ptr.obj && as(node, survP(*ptr, b)).prefixLen + as(node4, (*ptr).pointer).prefixLen + 1 < 4294967296)
 //@   ensures[wf] WF1_alpha(t)
 //@   ensures[size] t.size == old(t.size) - ite(result, 1, 0)
